@@ -619,3 +619,5 @@ def run(ctx: Context) -> None:
     ctx.isolate(r11_release_grids)
     from . import c17
     ctx.isolate(c17.r6_weights_in_one_unit, _alias={"C17.R6": "C19.R8"})
+    ctx.isolate(c17.r3_longest_path, _alias={"C17.R3": "C19.R12"})
+    ctx.isolate(c17.cache_coherence, "C19.R13", ("JobGraph", "Graph"), "deadlines are release + the completion time of the graph as it is", 2)
